@@ -9,7 +9,7 @@ import inspect
 import re
 
 from btclib import bip85
-from btclib.mnemonic import bip39, electrum, entropy
+from btclib.mnemonic import bip39, dispatch, electrum, entropy
 from pyfun2lean import FuncSpec
 
 NS = "Mnemonic"
@@ -82,6 +82,20 @@ def constants():
     eb = bip85._ENTROPY_BYTES
     t += "/-- `bip85._ENTROPY_BYTES`: words -> entropy bytes -/\n"
     t += "def BIP85_ENTROPY_BYTES : List (Nat × Nat) := [" + ", ".join(f"({k}, {v})" for k, v in sorted(eb.items())) + "]\n"
+    # dispatch: the word counts BIP39 defines, and the checksum verdict is asked for the language the caller NAMED
+    wc = dispatch._BIP39_WORD_COUNTS
+    if not isinstance(wc, tuple) or any(not isinstance(x, int) for x in wc):
+        raise ValueError(f"dispatch._BIP39_WORD_COUNTS: {wc!r}")
+    src = _src(dispatch, "_bip39_seed_type")
+    if "indexes_from_mnemonic(mnemonic, lang)" not in src or "bip39.entropy_from_mnemonic(mnemonic, lang)" not in src \
+            or "if len(words) not in _BIP39_WORD_COUNTS:" not in src or "if not words:" not in src:
+        raise ValueError("dispatch._bip39_seed_type: word lookup / checksum verification is not done in the named language")
+    src = _src(dispatch, "all_seed_types_from_mnemonic")
+    order = [src.find("_slip39_seed_type(mnemonic)"), src.find("electrum.version_from_mnemonic(mnemonic)"),
+             src.find("_bip39_seed_type(mnemonic, lang)")]
+    if -1 in order or order != sorted(order) or "f'electrum_{version}'" not in src:
+        raise ValueError("dispatch.all_seed_types_from_mnemonic: unexpected order / shape")
+    t += f"/-- `dispatch._BIP39_WORD_COUNTS` -/\ndef BIP39_WORD_COUNTS : List Nat := {_nat_list(wc)}\n"
     return t
 
 
